@@ -2,6 +2,7 @@
 From Coq Require Import List Bool NArith.
 Import ListNotations.
 From JS Require Import Model.Base Model.Shape Model.Sem Model.Infer Model.Api Proofs.InferLaws.
+From JS Require Import Model.Lexer Model.Walk Model.TextApi Model.JsonRef Proofs.WalkComplete Proofs.TextComplete Proofs.TextLift.
 
 Theorem C06_paths_agree : forall d, nodup_keys d = true -> infer_text d = infer_value d.
 Proof. exact paths_agree. Qed.
@@ -17,6 +18,12 @@ Print Assumptions C06_visitor.
 Theorem C06_duplicates_differ : exists d, nodup_keys d = false /\ infer_text d <> infer_value d.
 Proof. exists (JObj [([97%N], JNum); ([97%N], JStr)]). split; [reflexivity|]. vm_compute. discriminate. Qed.
 Print Assumptions C06_duplicates_differ.
+
+(* on TEXTS: the shape from_str gives a duplicate-free RFC 8259 text is the value path's shape of its tree *)
+Theorem C06_text_paths_agree : forall s d, json_text s d -> jdepth d <= 256 -> nodup_keys d = true ->
+  from_str_m cfg_now s = lift_infer (infer_value d).
+Proof. exact text_paths_agree_now. Qed.
+Print Assumptions C06_text_paths_agree.
 
 Example C06_nonvacuous :
   let d := JArr [JObj [([97%N], JNum); ([98%N], JNum); ([99%N], JNum)]; JObj [([98%N], JNum)]] in
